@@ -35,6 +35,7 @@ fn main() {
         "c01" => props::chain::run(&cfg, props::chain::Which::C01),
         "c03" => props::chain::run(&cfg, props::chain::Which::C03),
         "c05" => props::chain::run(&cfg, props::chain::Which::C05),
+        "c19" => props::c19::run(&cfg),
         _ => { eprintln!("unknown property {}", prop); std::process::exit(2); }
     };
     if let Some(dir) = std::path::Path::new(&cfg.out).parent() {
